@@ -385,13 +385,33 @@ def r7_od_accessor(ctx, F):
     ctx.saw(od)
 
     def inl(fn, v):
-        v = prov.inline_all(F, v, depth=3, _seen=(fn.path,), only=lambda f_: f_.get('local') and not f_.get('trait') and f_.get('name') not in ('hit_windows',))
+        def _opaque(f_):
+            # whatever returns the builder's HitWindows (hit_windows() or a private core of it) stays a call: its `od_great` is the W of the builder's side
+            g_ = F.fn(f_.get('path') or '')
+            return f_.get('name') == 'hit_windows' or (g_ is not None and 'HitWindows' in str((g_.j.get('output') or {}).get('s')))
+        v = prov.inline_all(F, v, depth=3, _seen=(fn.path,), only=lambda f_: f_.get('local') and not f_.get('trait') and not _opaque(f_))
         return combin.expand(F, v)
-    a = prov.show(inl(od, prov.prov_of(od).return_value()), maxdepth=14).replace('param#1.great_hit_window', 'W')
+    W = ('const', {'k': 'const', 'ty': 'f64', 'tk': 'float', 'val': 'W'})
+
+    def subst(v, is_w):
+        """the tree with every node for which is_w holds replaced by the marker W"""
+        if isinstance(v, tuple):
+            if v and isinstance(v[0], str) and is_w(v):
+                return W
+            return tuple(subst(x, is_w) for x in v)
+        if isinstance(v, list):
+            return [subst(x, is_w) for x in v]
+        if isinstance(v, dict):
+            return {k_: (subst(x, is_w) if isinstance(x, (tuple, list)) else x) for k_, x in v.items()}
+        return v
+    # W = the stored great hit window on the accessor's side, the `od_great` of the builder's own hit windows (hit_windows() or its private core) on the builder's
+    own_w = lambda n: n[0] == 'field' and n[2] == 'great_hit_window' and prov.strip(n[1], names=set()) == ('param', 1)       # noqa: E731
+    bld_w = lambda n: n[0] == 'field' and n[2] == 'od_great' and prov.strip(n[1], names=set())[0] == 'call' and \
+        prov.strip(n[1], names=set())[1].get('impl_adt') == B        # noqa: E731
+    a = prov.show(subst(inl(od, prov.prov_of(od).return_value()), own_w), maxdepth=14)
     bv = prov.strip(prov.project_field(inl(build, prov.prov_of(build).return_value()), 'od'), names=set())
     alts = bv[1] if bv[0] == 'phi' else [bv]
-    import re as _re
-    btxt = [_re.sub(r'[A-Za-z_:<>]*BeatmapAttributesBuilder::hit_windows\(param#1\)\.od_great', 'W', prov.show(x, maxdepth=14)) for x in alts]
+    btxt = [prov.show(subst(x, bld_w), maxdepth=14) for x in alts]
     ctx.require('W' in a and a in btxt, 'C17-R7', 'osu:od-accessor', 'OsuDifficultyAttributes::od() = %s is the builder\'s conversion of the great hit window' % a[:80], od.where(),
                 bad='OsuDifficultyAttributes::od() computes `%s` from the stored great hit window, the attribute builder\'s `od` is one of %s: the OD the attributes report and the '
                     'builder\'s OD part where the two expressions differ (a clamp, a different constant)' % (a[:120], [t[:90] for t in btxt if 'W' in t]))
